@@ -86,7 +86,7 @@ def make_master(ctx, rng, scenario, d):
 def audit_after(root, scenario, check_state=True):
     """Post-mortem: -> (problems [(key, what)], info)"""
     problems = []
-    info = {"objects": 0, "mismatching_unprotected": 0, "temps": 0}
+    info = {"objects": 0, "mismatching_unprotected": 0, "temps": 0, "leftover_oids": [], "bad_oids": []}
     for sd in STORE_DIRS[scenario]:
         sroot = os.path.join(root, sd)
         objs, temps, _s = list_store(sroot)
@@ -115,10 +115,13 @@ def audit_after(root, scenario, check_state=True):
                     problems.append(("state-db-unreadable", f"state lookup failed: {type(e).__name__}: {e}"))
             if mode == 0o444:
                 problems.append(("mismatching-object-protected", f"object {oid} ({len(data)} bytes) does not match its name and is read-only"))
+                info["bad_oids"].append(oid)
             elif vouched:
                 problems.append(("mismatching-object-vouched", f"object {oid} does not match its name and the state DB vouches for it"))
+                info["bad_oids"].append(oid)
             else:
                 info["mismatching_unprotected"] += 1
+                info["leftover_oids"].append(oid)
         if state is not None:
             try:
                 state.close()
@@ -134,6 +137,7 @@ def audit_after(root, scenario, check_state=True):
             bad = sorted(v for v in set(listing.values()) if v not in valid)
             if bad:
                 problems.append(("dir-object-without-valid-files", f"directory object {oid} present but listed file(s) {bad[:2]} absent or invalid"))
+                info.setdefault("dir_bad_children", []).extend(bad)
     return problems, info
 
 
@@ -220,7 +224,14 @@ def crash_rounds(ctx, scenario, rng, case, every, on_kill=None, check_rerun=True
                 res.violation(f"{scenario}/rerun/failed", f"re-running the interrupted operation failed (rc={rc2}): {err2[-300:].decode('utf-8', 'replace')}", case=case, detail=ctxinfo)
                 continue
             probs2, info2 = audit_after(run_root, scenario)
+            leftover = set(info["leftover_oids"])
             for key, what in probs2:
+                # mechanism: was the offending object the unprotected leftover of the crash, which the
+                # re-run then trusted (skipped as existing, protected, recorded)?
+                if key in ("mismatching-object-protected", "mismatching-object-vouched") and set(info2["bad_oids"]) <= leftover:
+                    key = "crash-leftover-object-trusted-by-rerun"
+                elif key == "dir-object-without-valid-files" and set(info2.get("dir_bad_children", [])) <= leftover:
+                    key = "dir-lists-crash-leftover-object"
                 res.violation(f"{scenario}/rerun/{key}", f"after re-run: {what} (had been killed at {events[n - 1][0]} {events[n - 1][1]})", case=case, detail=ctxinfo)
             if info2["mismatching_unprotected"]:
                 res.violation(f"{scenario}/rerun/mismatching-object-left", "after re-run an object still does not match its name", case=case, detail=ctxinfo)
